@@ -35,6 +35,9 @@ def run(ctx):
     if ctx.thorough:
         ctx.tlc(SD, "Dispatch", "MC_Dispatch_live2.cfg", timeout=3000,
                 label="liveness 1 x 1, restart + StaleLockTimeout + crash + unresponsive VM: + BrokenGoes")
+    if ctx.thorough:
+        ctx.tlc(SD, "Dispatch", "MC_Dispatch_live3.cfg", timeout=3000,
+                label="liveness 1 x 1, two faults on one instance (operator drain, then deaf / reports broken) + crash")
     # scenarios: one calm calibration run first, then faulty runs
     scns = [{"id": 1, "n": 30, "prios": 5, "rseed": rnd.randrange(1 << 30), "faults": False, "calm": True, "deadlinefactor": 100}]
     nfaulty = 8 if ctx.thorough else 3
@@ -60,6 +63,9 @@ def run(ctx):
     # the cloud answers the first Create call with a quota error, then has capacity; one container per instance type
     scns.append({"id": 54, "n": 3, "prios": 1, "rseed": rnd.randrange(1 << 30), "faults": False, "quotafirst": 1,
                  "stalems": 3000, "deadlinefactor": 100})
+    # two faults on one instance: drained by the operator while busy, then deaf
+    scns.append({"id": 55, "n": 8, "prios": 2, "rseed": rnd.randrange(1 << 30), "faults": False, "onetype": True, "draindeaf": 3,
+                 "stalems": 3000, "deadlinefactor": 100})
     # the same fault-free run once more at the end: a machine that has become much slower during the
     # check makes the deadlines meaningless
     scns.append(dict(scns[0], id=99))
@@ -82,7 +88,7 @@ def run(ctx):
     if len(calm) > 1 and calm[-1]["elapsed_ms"] > 3 * max(calm[0]["elapsed_ms"], 1000):
         raise vlib.InfraError("machine slowed down during the check: the fault-free run took %d ms at the beginning and %d ms "
                               "at the end; deadline-based judgement disabled" % (calm[0]["elapsed_ms"], calm[-1]["elapsed_ms"]))
-    if calm[0]["elapsed_ms"] > 30000 or calm[0]["timedout"]:
+    if calm[0]["elapsed_ms"] > 30000 or any(f["timedout"] for f in calm):
         raise vlib.InfraError("machine too slow: the fault-free run of 30 containers took %d ms; deadline-based "
                               "judgement disabled" % calm[0]["elapsed_ms"])
     ctx.judge(SD, "DispatchLiveTrace", "Judge_DispatchLive.cfg", events, scenario_of=by_id, timeout=900)
